@@ -589,7 +589,7 @@ class PlanJoinTablesQuery:
             model_params = {}
             for param, value in query_in.using.items():
                 if '.' in param:
-                    alias = param.split('.')[0]
+                    alias = param.split('.')[0].lower()
                     if (alias,) in item.aliases:
                         new_param = '.'.join(param.split('.')[1:])
                         model_params[new_param.lower()] = value
